@@ -24,10 +24,14 @@ package ice
 
 //@ func (*Agent).setSelectedPair
 //@   props C03 C04 C06
+//@   requires C04 selection-only-while-alive: pair == nil || a.connectionState != ConnectionStateFailed
+//@   site call updateConnectionState#1 assert C04 connected-is-never-entered-from-failed: a.connectionState != ConnectionStateFailed
 //@   requires C03 only-valid-pairs: pair == nil || a.userBindingRequestHandler != nil || pair.state == pairSucceeded
 //@   site store nominated#1 assert C03 marks-nominated: value == true && object == pair
 //@   site call updateConnectionState#1 assert C04 selection-reports-connected: arg1 == ConnectionStateConnected && pair != nil && a.getSelectedPair() == pair
 //@   ensures C03 C04 stored: a.getSelectedPair() == pair
+//@   ensures C04 selecting-reports-connected: pair != nil ==> a.connectionState == ConnectionStateConnected
+//@   ensures C04 unselecting-keeps-the-state: pair == nil ==> a.connectionState == old(a.connectionState)
 //@   ensures C06 C03 select-touches-only-selection-and-state: pair != nil ==> unchangedExcept("H_ice.Agent.selectedPair*", "H_ice.CandidatePair.nominated", "H_ice.Agent.connectionState", "H_ice.handlerNotifier.*", "E_ice.ConnectionState", "E_*ice.CandidatePair", "H_ice.Agent.onConnectedOnce", "Chan.closed", "H_sync.WaitGroup*")
 //@   ensures C04 C06 unselect-touches-only-selection: pair == nil ==> unchangedExcept("H_ice.Agent.selectedPair*")
 
@@ -53,7 +57,8 @@ package ice
 //@   ensures no-priority-check: selectedPair != nil && selectedPair != pair && nominationValue == nil && !(!s.agent.lite || s.agent.enableUseCandidateCheckPriority) ==> result
 
 //@ func (*controllingSelector).HandleSuccessResponse
-//@   props C03 C02 C20
+//@   props C03 C02 C20 C04
+//@   requires C04 alive: s.agent.connectionState != ConnectionStateFailed
 //@   ghostvar mustSwitch bool = false
 //@   ghostvar target int = 0
 //@   site store state#1 ghost target := pair
@@ -85,7 +90,8 @@ package ice
 //@   ensures C02 asymmetric-changes-nothing-else: s.agent.gTxOK && !s.agent.gSymOK ==> unchangedExcept("H_ice.Agent.gTxOK", "H_ice.Agent.gSymOK", "H_ice.Agent.pendingBindingRequests*", "H_ice.bindingRequest.*", "E_*")
 
 //@ func (*controlledSelector).HandleSuccessResponse
-//@   props C03 C02 C20
+//@   props C03 C02 C20 C04
+//@   requires C04 alive: s.agent.connectionState != ConnectionStateFailed
 //@   ghostvar target int = 0
 //@   ghostvar deferredWins bool = false
 //@   ghostvar deferredSuperseded bool = false
@@ -109,7 +115,8 @@ package ice
 //@   ensures C02 asymmetric-changes-nothing-else: s.agent.gTxOK && !s.agent.gSymOK ==> unchangedExcept("H_ice.Agent.gTxOK", "H_ice.Agent.gSymOK", "H_ice.Agent.pendingBindingRequests*", "H_ice.bindingRequest.*", "E_*")
 
 //@ func (*controlledSelector).HandleBindingRequest
-//@   props C03 C20
+//@   props C03 C20 C04
+//@   requires C04 alive: s.agent.connectionState != ConnectionStateFailed
 //@   site call shouldAcceptNomination#1 assert C03 nomination-evidence: hasUseCandidate || hasValidNomination
 //@   site call shouldAcceptNomination#1 assert C20 value-only-if-decoded: (arg1 != nil) == hasValidNomination
 //@   site call shouldAcceptNomination#1 ghost s.agent.gNomAccepted := result
@@ -121,8 +128,12 @@ package ice
 //@   site call sendBindingSuccess#2 assert C20 an-accepted-nomination-on-a-not-yet-valid-pair-is-remembered-with-its-latest-value: s.agent.gNomAccepted && (hasUseCandidate || hasValidNomination) && pair.state != pairSucceeded ==> pair.nominateOnBindingSuccess && pair.nominationValueOnBindingSuccess == nominationValue
 //@   site call sendBindingSuccess#1 assert C20 rejected-nomination-still-answered: !s.agent.gNomAccepted && arg1 == message
 
+// ASSUMED (C04): the application's binding-request handler, which runs on the agent loop, does not
+// change agent state behind the agent's back.
+//@ noeffect ice.Agent.userBindingRequestHandler
 //@ func (*Agent).handleBindingRequestWithCustomHandler
-//@   props C03
+//@   props C03 C04
+//@   requires C04 alive: a.connectionState != ConnectionStateFailed
 //@   site call setSelectedPair#1 assert C03 only-with-application-handler: old(a.userBindingRequestHandler) != nil
 //@   ensures C03 no-handler-no-effect: old(a.userBindingRequestHandler) == nil ==> unchangedExcept()
 
